@@ -351,7 +351,14 @@ func runHandshake(rc *simrt.RunCtx, sp hsSpec, ca, cb *simConn) (cli, srv *party
 		return p
 	}
 	cli = mk(sp.cliKey, sp.cliRemote, sp.cliPass, nil, sp.cMin, sp.cMax, sp.cliRefuseKey, sp.cliRefuseAuth)
-	srv = mk(sp.srvKey, sp.srvRemote, sp.srvPass, sp.auth, sp.sMin, sp.sMax, sp.srvRefuseKey, false)
+	// the responder's application hands over its payload in a slice of its own,
+	// with or without spare capacity (sp.auth stays the oracle's pristine copy)
+	srvAuth := sp.auth
+	if sp.auth != nil {
+		spare := []int{0, 16, 64, 4096}[rc.Pick(4, "wl.auth-spare-capacity")]
+		srvAuth = append(make([]byte, 0, len(sp.auth)+spare), sp.auth...)
+	}
+	srv = mk(sp.srvKey, sp.srvRemote, sp.srvPass, srvAuth, sp.sMin, sp.sMax, sp.srvRefuseKey, false)
 	startC := func() {
 		go func() {
 			cli.net, _, cli.err = cli.conn.ClientHandshake(context.Background(), "", ca)
